@@ -1,0 +1,111 @@
+//go:build verif
+
+// Package verifhook provides named delay points used by the runtime
+// verification harness (build tag `verif`). A point is placed only at an
+// existing preemption point (between two critical sections or before a blocking
+// operation); it never holds a lock and only makes interleavings that the
+// scheduler already allows more likely.
+//
+// Plans come from the environment variable VERIF_POINTS
+// ("name=sleep(ms);name2=yield;name3=gate") or from Set().
+package verifhook
+
+import (
+	"os"
+	"runtime"
+	"strconv"
+	"strings"
+	"sync"
+	"time"
+)
+
+type plan struct {
+	kind string // sleep | yield | gate
+	ms   int
+	gate chan struct{}
+}
+
+var (
+	mu    sync.Mutex
+	plans = map[string]*plan{}
+	hits  = map[string]int64{}
+	once  sync.Once
+)
+
+func load() {
+	for _, kv := range strings.Split(os.Getenv("VERIF_POINTS"), ";") {
+		kv = strings.TrimSpace(kv)
+		if kv == "" {
+			continue
+		}
+		i := strings.IndexByte(kv, '=')
+		if i < 0 {
+			continue
+		}
+		setLocked(kv[:i], kv[i+1:])
+	}
+}
+
+func setLocked(name, spec string) {
+	switch {
+	case spec == "" || spec == "off":
+		delete(plans, name)
+	case spec == "yield":
+		plans[name] = &plan{kind: "yield"}
+	case spec == "gate":
+		plans[name] = &plan{kind: "gate", gate: make(chan struct{})}
+	case strings.HasPrefix(spec, "sleep(") && strings.HasSuffix(spec, ")"):
+		ms, _ := strconv.Atoi(spec[6 : len(spec)-1])
+		plans[name] = &plan{kind: "sleep", ms: ms}
+	}
+}
+
+// Set installs or removes ("off") a plan for a point at run time.
+func Set(name, spec string) {
+	once.Do(load)
+	mu.Lock()
+	defer mu.Unlock()
+	setLocked(name, spec)
+}
+
+// Release opens a gate; goroutines waiting at the point continue and the point
+// becomes a no-op.
+func Release(name string) {
+	mu.Lock()
+	defer mu.Unlock()
+	if p := plans[name]; p != nil && p.kind == "gate" {
+		close(p.gate)
+		delete(plans, name)
+	}
+}
+
+// Hits returns how often each point was passed.
+func Hits() map[string]int64 {
+	mu.Lock()
+	defer mu.Unlock()
+	out := make(map[string]int64, len(hits))
+	for k, v := range hits {
+		out[k] = v
+	}
+	return out
+}
+
+// Point marks an existing preemption point.
+func Point(name string) {
+	once.Do(load)
+	mu.Lock()
+	hits[name]++
+	p := plans[name]
+	mu.Unlock()
+	if p == nil {
+		return
+	}
+	switch p.kind {
+	case "yield":
+		runtime.Gosched()
+	case "sleep":
+		time.Sleep(time.Duration(p.ms) * time.Millisecond)
+	case "gate":
+		<-p.gate
+	}
+}
